@@ -6,6 +6,7 @@ package vtime
 
 import (
 	"container/heap"
+	"context"
 	"runtime"
 	"sync"
 	"time"
@@ -418,4 +419,48 @@ func (t *Ticker) Reset(d Duration) {
 	t.e.period = d
 	t.c.add(t.e, d)
 	t.c.mu.Unlock()
+}
+
+// ---------------------------------------------------------------- contexts with virtual deadlines
+
+type deadlineCtx struct {
+	context.Context
+	deadline Time
+	mu       sync.Mutex
+	expired  bool
+}
+
+func (c *deadlineCtx) Deadline() (Time, bool) { return c.deadline, true }
+
+func (c *deadlineCtx) Err() error {
+	c.mu.Lock()
+	defer c.mu.Unlock()
+	if c.expired {
+		return context.DeadlineExceeded
+	}
+	return c.Context.Err()
+}
+
+// ContextWithDeadline is context.WithDeadline on the virtual clock (the real one when none is installed).
+func ContextWithDeadline(parent context.Context, d Time) (context.Context, context.CancelFunc) {
+	if !Virtual() {
+		return context.WithDeadline(parent, d)
+	}
+	inner, cancel := context.WithCancel(parent)
+	c := &deadlineCtx{Context: inner, deadline: d}
+	t := AfterFunc(d.Sub(Now()), func() {
+		c.mu.Lock()
+		c.expired = inner.Err() == nil
+		c.mu.Unlock()
+		cancel()
+	})
+	return c, func() { t.Stop(); cancel() }
+}
+
+// ContextWithTimeout is context.WithTimeout on the virtual clock.
+func ContextWithTimeout(parent context.Context, d Duration) (context.Context, context.CancelFunc) {
+	if !Virtual() {
+		return context.WithTimeout(parent, d)
+	}
+	return ContextWithDeadline(parent, Now().Add(d))
 }
